@@ -169,6 +169,189 @@ theorem foldKey_injective (P : PyVal → Prop) (hP : ∀ r, P r → IntOrNone r)
   intro a ha b hb hab
   exact pyStr_inj a b (hP a (k1 a ha)) (hP b (k2 b hb)) (String.toList_injective hab)
 
+/-! ### keys with text parts: the parts can be read back one by one -/
+
+def KeyKind (r : PyVal) : Prop := (∃ z, r = .int z) ∨ r = .none ∨ (∃ cs, r = .str cs)
+def AsciiStr (r : PyVal) : Prop := ∀ cs, r = .str cs → ∀ c ∈ cs, c < 128
+/-- what may follow a part of the key: nothing, or the separator of the next part -/
+def SepTail (t : List Char) : Prop := t = [] ∨ ∃ u, t = '_' :: u
+
+theorem ofNat_ascii_toNat (n : Nat) (h : n < 128) : (Char.ofNat n).toNat = n := by
+  have : ∀ k : Fin 128, (Char.ofNat k).toNat = k := by decide +kernel
+  exact this ⟨n, h⟩
+
+theorem map_ofNat_ascii_inj : ∀ (cs cs' : List Nat), (∀ c ∈ cs, c < 128) → (∀ c ∈ cs', c < 128) →
+    cs.map Char.ofNat = cs'.map Char.ofNat → cs = cs'
+  | [], [], _, _, _ => rfl
+  | [], _ :: _, _, _, h => by simp at h
+  | _ :: _, [], _, _, h => by simp at h
+  | x :: xs, y :: ys, hx, hy, h => by
+    simp only [List.map_cons, List.cons.injEq] at h
+    have e := congrArg Char.toNat h.1
+    rw [ofNat_ascii_toNat x (hx x (by simp)), ofNat_ascii_toNat y (hy y (by simp))] at e
+    rw [e, map_ofNat_ascii_inj xs ys (fun c hc => hx c (List.mem_cons_of_mem _ hc))
+      (fun c hc => hy c (List.mem_cons_of_mem _ hc)) h.2]
+
+/-- a maximal run of digits is determined by the string -/
+theorem digitRun_unique : ∀ (d d' t t' : List Char), (∀ c ∈ d, c.isDigit = true) → (∀ c ∈ d', c.isDigit = true) →
+    (∀ c u, t = c :: u → c.isDigit = false) → (∀ c u, t' = c :: u → c.isDigit = false) →
+    d ++ t = d' ++ t' → d = d' ∧ t = t'
+  | [], [], _, _, _, _, _, _, h => by simpa using h
+  | [], c :: d', t, t', _, hd', ht, _, h => by
+    simp only [List.nil_append, List.cons_append] at h
+    have := ht c _ h
+    rw [hd' c (by simp)] at this; cases this
+  | c :: d, [], t, t', hd, _, _, ht', h => by
+    simp only [List.nil_append, List.cons_append] at h
+    have := ht' c _ h.symm
+    rw [hd c (by simp)] at this; cases this
+  | c :: d, c' :: d', t, t', hd, hd', ht, ht', h => by
+    simp only [List.cons_append, List.cons.injEq] at h
+    obtain ⟨e1, e2⟩ := digitRun_unique d d' t t' (fun x hx => hd x (List.mem_cons_of_mem _ hx))
+      (fun x hx => hd' x (List.mem_cons_of_mem _ hx)) ht ht' h.2
+    exact ⟨by rw [h.1, e1], e2⟩
+
+theorem toDigits_isDigit (n : Nat) : ∀ c ∈ Nat.toDigits 10 n, c.isDigit = true :=
+  fun _ h => Nat.isDigit_of_mem_toDigits (by decide) (by decide) h
+
+theorem toDigits_cons (n : Nat) : ∃ c l, Nat.toDigits 10 n = c :: l ∧ c.isDigit = true := by
+  cases h : Nat.toDigits 10 n with
+  | nil => exact absurd h Nat.toDigits_ne_nil
+  | cons c l => exact ⟨c, l, rfl, toDigits_isDigit n c (by rw [h]; simp)⟩
+
+theorem sepTail_nondigit {t : List Char} (h : SepTail t) : ∀ c u, t = c :: u → c.isDigit = false := by
+  intro c u e
+  rcases h with rfl | ⟨v, rfl⟩
+  · cases e
+  · cases e; decide
+
+theorem colon_nondigit (v : List Char) : ∀ c u, ':' :: v = c :: u → c.isDigit = false := by
+  intro c u e; cases e; decide
+
+theorem strTok_toList (cs : List Nat) :
+    (pyStr (.str cs)).toList = Nat.toDigits 10 cs.length ++ ':' :: cs.map Char.ofNat := by
+  simp [pyStr, String.toList_append, Nat.repr]
+
+theorem nondigit_vs_digits (c : Char) (hc : c.isDigit = false) (x y : List Char) (n : Nat) :
+    c :: x ≠ Nat.toDigits 10 n ++ y := by
+  obtain ⟨c', l, e, hd⟩ := toDigits_cons n
+  rw [e]; intro h
+  simp only [List.cons_append, List.cons.injEq] at h
+  rw [h.1, hd] at hc; cases hc
+
+theorem int_vs_str (a : Nat) (rest : List Char) (hs : SepTail rest) (b : Nat) (v : List Char) :
+    Nat.toDigits 10 a ++ rest ≠ Nat.toDigits 10 b ++ ':' :: v := by
+  intro h
+  obtain ⟨_, e⟩ := digitRun_unique _ _ _ _ (toDigits_isDigit a) (toDigits_isDigit b)
+    (sepTail_nondigit hs) (colon_nondigit v) h
+  rcases hs with rfl | ⟨u, rfl⟩
+  · cases e
+  · simp at e
+
+/-- **one part of the key is self-delimiting**: it and what follows it can be read back -/
+theorem keyTok_unique (r r' : PyVal) (rest rest' : List Char) (k : KeyKind r) (k' : KeyKind r')
+    (a : AsciiStr r) (a' : AsciiStr r') (hs : SepTail rest) (hs' : SepTail rest')
+    (h : (pyStr r).toList ++ rest = (pyStr r').toList ++ rest') : r = r' ∧ rest = rest' := by
+  have hN : ('N' : Char).isDigit = false := by decide
+  have hM : ('-' : Char).isDigit = false := by decide
+  rcases k with ⟨z, rfl⟩ | rfl | ⟨cs, rfl⟩ <;> rcases k' with ⟨z', rfl⟩ | rfl | ⟨cs', rfl⟩
+  · -- int, int
+    simp only [pyStr] at h
+    rw [intStr_toList, intStr_toList] at h
+    split at h <;> split at h
+    · obtain ⟨e1, e2⟩ := digitRun_unique _ _ _ _ (toDigits_isDigit _) (toDigits_isDigit _)
+        (sepTail_nondigit hs) (sepTail_nondigit hs') h
+      have := toDigits_inj e1
+      exact ⟨by congr 1; omega, e2⟩
+    · exact absurd h.symm (nondigit_vs_digits _ hM _ _ _)
+    · exact absurd h (nondigit_vs_digits _ hM _ _ _)
+    · simp only [List.cons_append, List.cons.injEq, true_and] at h
+      obtain ⟨e1, e2⟩ := digitRun_unique _ _ _ _ (toDigits_isDigit _) (toDigits_isDigit _)
+        (sepTail_nondigit hs) (sepTail_nondigit hs') h
+      have := toDigits_inj e1
+      exact ⟨by congr 1; omega, e2⟩
+  · -- int, none
+    exfalso
+    simp only [pyStr] at h
+    rw [intStr_toList] at h
+    split at h
+    · exact nondigit_vs_digits 'N' hN _ _ _ h.symm
+    · simp at h
+  · -- int, str
+    exfalso
+    rw [strTok_toList] at h
+    simp only [pyStr] at h
+    rw [intStr_toList] at h
+    split at h
+    · rw [List.append_assoc] at h
+      exact int_vs_str _ _ hs _ _ h
+    · rw [List.append_assoc] at h
+      exact nondigit_vs_digits _ hM _ _ _ h
+  · -- none, int
+    exfalso
+    simp only [pyStr] at h
+    rw [intStr_toList] at h
+    split at h
+    · exact nondigit_vs_digits 'N' hN _ _ _ h
+    · simp at h
+  · -- none, none
+    exact ⟨rfl, List.append_cancel_left h⟩
+  · -- none, str
+    exfalso
+    rw [strTok_toList, List.append_assoc] at h
+    exact nondigit_vs_digits 'N' hN _ _ _ h
+  · -- str, int
+    exfalso
+    rw [strTok_toList] at h
+    simp only [pyStr] at h
+    rw [intStr_toList] at h
+    split at h
+    · rw [List.append_assoc] at h
+      exact int_vs_str _ _ hs' _ _ h.symm
+    · rw [List.append_assoc] at h
+      exact nondigit_vs_digits _ hM _ _ _ h.symm
+  · -- str, none
+    exfalso
+    rw [strTok_toList, List.append_assoc] at h
+    exact nondigit_vs_digits 'N' hN _ _ _ h.symm
+  · -- str, str
+    rw [strTok_toList, strTok_toList, List.append_assoc, List.append_assoc] at h
+    obtain ⟨e1, e2⟩ := digitRun_unique _ _ _ _ (toDigits_isDigit _) (toDigits_isDigit _)
+      (colon_nondigit _) (colon_nondigit _) h
+    have hl := toDigits_inj e1
+    simp only [List.cons.injEq, true_and] at e2
+    obtain ⟨e3, e4⟩ := List.append_inj e2 (by simp [hl])
+    exact ⟨by rw [map_ofNat_ascii_inj cs cs' (a cs rfl) (a' cs' rfl) e3], e4⟩
+
+def keySegs (rs : List PyVal) : List Char := (rs.map (fun r => '_' :: (pyStr r).toList)).flatten
+
+theorem keySegs_sepTail : ∀ rs, SepTail (keySegs rs)
+  | [] => Or.inl rfl
+  | r :: rs => Or.inr ⟨_, by simp [keySegs]; rfl⟩
+
+theorem keySegs_inj : ∀ (rs rs' : List PyVal), rs.length = rs'.length →
+    (∀ r ∈ rs, KeyKind r) → (∀ r ∈ rs', KeyKind r) → (∀ r ∈ rs, AsciiStr r) → (∀ r ∈ rs', AsciiStr r) →
+    keySegs rs = keySegs rs' → rs = rs'
+  | [], [], _, _, _, _, _, _ => rfl
+  | [], _ :: _, hl, _, _, _, _, _ => by simp at hl
+  | _ :: _, [], hl, _, _, _, _, _ => by simp at hl
+  | r :: rs, r' :: rs', hl, k, k', a, a', h => by
+    have h2 : (pyStr r).toList ++ keySegs rs = (pyStr r').toList ++ keySegs rs' := by
+      simpa [keySegs] using h
+    obtain ⟨e1, e2⟩ := keyTok_unique r r' _ _ (k r (by simp)) (k' r' (by simp)) (a r (by simp)) (a' r' (by simp))
+      (keySegs_sepTail rs) (keySegs_sepTail rs') h2
+    rw [e1, keySegs_inj rs rs' (by simpa using hl) (fun x hx => k x (List.mem_cons_of_mem _ hx))
+      (fun x hx => k' x (List.mem_cons_of_mem _ hx)) (fun x hx => a x (List.mem_cons_of_mem _ hx))
+      (fun x hx => a' x (List.mem_cons_of_mem _ hx)) e2]
+
+/-- same id, same number of parts, every part an integer, absent or ASCII text: the key determines the parts -/
+theorem foldKey_injective_text (id : String) (rs rs' : List PyVal) (hl : rs.length = rs'.length)
+    (k : ∀ r ∈ rs, KeyKind r) (k' : ∀ r ∈ rs', KeyKind r) (a : ∀ r ∈ rs, AsciiStr r) (a' : ∀ r ∈ rs', AsciiStr r)
+    (h : foldKey id rs = foldKey id rs') : rs = rs' := by
+  have h' := congrArg String.toList h
+  rw [foldKey_toList, foldKey_toList] at h'
+  exact keySegs_inj rs rs' hl k k' a a' (List.append_cancel_left h')
+
 /-! ### unit preferences keep the frame; the hash key of a returned message -/
 
 /-! frame -/
